@@ -99,6 +99,9 @@ def case_stats(path):
     for c in vlib.iter_ndjson(path):
         key = "%s%d" % (c["fam"], c["n"])
         fam[key] = fam.get(key, 0) + 1
+        if c["k"] == "smat":
+            sing["scaled:sexp=%d" % c["sexp"]] = sing.get("scaled:sexp=%d" % c["sexp"], 0) + 1
+            continue
         if c["k"] == "gmat":
             # pivot-search patterns of the graded column (first column, physical row order): a tiny diagonal
             # candidate, then either a LARGER TINY entry after the big one ("last exceeding the diagonal" would
@@ -165,10 +168,28 @@ def record_and_validate(ctx, binary, nrec, seed, tag):
     return trace, events, ok, bad, why
 
 
+def reentrancy_model(ctx):
+    """spec/Reentrancy.tla: 'a routine is a function of its arguments and its caller-supplied work space only'.
+    TLC proves it for call-owned temporaries under every interleaving and must refute the variant with a hidden
+    shared accumulator (vacuity control); sequential schedules alone do not expose that variant."""
+    ctx.sany("Reentrancy")
+    ctx.tlc("Reentrancy", "Reentrancy.cfg", workers=1, timeout=120, label="reentrancy",
+            consts={"Shared": "FALSE", "Sequential": "FALSE"})
+    bad = ctx.tlc("Reentrancy", "Reentrancy.cfg", workers=1, timeout=120, label="reentrancy-shared", allow_violation=True,
+                  count_stats=False, consts={"Shared": "TRUE", "Sequential": "FALSE"})
+    seq = ctx.tlc("Reentrancy", "Reentrancy.cfg", workers=1, timeout=120, label="reentrancy-shared-seq", count_stats=False,
+                  consts={"Shared": "TRUE", "Sequential": "TRUE"})
+    if "FunctionOfArguments" not in bad.violated or not seq.ok:
+        raise vlib.Infra("vacuity: Reentrancy.tla did not separate the shared-accumulator variant (violated=%s)" % bad.violated)
+    ctx.extra["reentrancy_model"] = "call-owned temporaries: holds under every interleaving; hidden shared accumulator: refuted " \
+                                    "by TLC, invisible under sequential schedules"
+
+
 def reentrant(ctx, t):
     """The equations of the property hold for every call, whatever else the process is doing: run the recorder
     from 8 goroutines concurrently (every goroutine on its own random inputs, DenseFloat64 paths) with a -race
     build.  A data-race report or a wrong result (trace rejected) is a violation what=not_reentrant."""
+    reentrancy_model(ctx)
     race = ctx.go_build("linalg", race=True)
     trace = ctx.path("linsolve_trace-conc.ndjson")
     per = t["record"] // 4
@@ -210,12 +231,13 @@ def run(ctx):
     fam, sing, masks4, ntri, nspd, nonprefix, sample = case_stats(cases)
     ctx.log("LinSolve: %d cases %s" % (res.json_count, json.dumps(fam, sort_keys=True)))
     # vacuity: the interesting classes really occur
-    need = ["g1", "g2", "g3", "pd3", "p44", "q44", "tr3", "tr4", "sym3", "sym4", "gr3", "gr4", "spd1", "spd2", "spd3", "spd4"]
+    need = ["g1", "g2", "g3", "pd3", "p44", "q44", "tr3", "tr4", "sym3", "sym4", "gr3", "gr4", "st5", "st12", "st40", "sd12", "sd40", "spd1", "spd2", "spd3", "spd4"]
     missing = [k for k in need if fam.get(k, 0) == 0]
     if missing or fam.get("p44") != 24 * 81 or fam.get("pd3") != 48 or fam.get("g2") != 625:
         raise vlib.Infra("vacuity: families missing or incomplete: %s %s" % (missing, fam))
     for cls in ("none", "zero_row", "zero_col", "equal_rows", "other", "sub:zero_row", "sub:none",
-                "graded:last_exceeding", "graded:first_exceeding", "graded:later_column"):
+                "graded:last_exceeding", "graded:first_exceeding", "graded:later_column",
+                "scaled:sexp=-70", "scaled:sexp=70", "scaled:sexp=-27"):
         if sing.get(cls, 0) == 0:
             raise vlib.Infra("vacuity: no case of singularity class " + cls)
     if len(masks4) != 14 or nonprefix == 0 or ntri == 0 or nspd == 0:
